@@ -249,6 +249,8 @@ def body(chk, db, cfgname):
     r_idem = chk.rule("C14-R4", "prepare()/compute() are idempotent: the early-return level is the level the function establishes", "F1 pairing", 3)
     from checks.lehmann import check_status_guards
     check_status_guards(r_idem, db, cfgname, ("Pomerol::Susceptibility", "Pomerol::EnsembleAverage"))
+    from checks.lehmann import check_copy_ctors_complete
+    check_copy_ctors_complete(r_idem, db, cfgname, ("Pomerol::Susceptibility",))
     chk.undecided.append("equality with int_0^beta <T A(tau) B(0)> e^{iWt} dtau at the value level; the threshold semantics of |Pole| < tolerance for nearly degenerate levels")
 
 
